@@ -66,10 +66,24 @@ def task_key(rule, t):
 
 
 def resource_key(rule, r, name, workplace_id, is_worker):
+    """Documented keys (ascending).  For workers every rule is followed by the documented tie-breakers: main workplace
+    equals the target first (MW1), then workers without a main workplace (MW2); MW itself is followed by the skill sum."""
+    if is_worker:
+        mw1 = 0 if (r.main_workplace_id == workplace_id) else 1   # value equality, None == None counts as a match (as documented by the code's MW1)
+        mw2 = 0 if r.main_workplace_id is None else 1
+        ssp = sum(r.workamount_skill_mean_map.values())
+        if rule == -1:
+            return (mw1, mw2, ssp)
+        if rule == 0:
+            return (ssp, mw1, mw2)
+        if rule == 1:
+            return (r.cost_per_time, mw1, mw2)
+        if rule == 2:
+            v = r.workamount_skill_mean_map.get(name)
+            return (float("inf") if v is None else -v, mw1, mw2)
+        return None
     if rule == -1:
-        if not is_worker:
-            return None
-        return 0 if (r.main_workplace_id is not None and r.main_workplace_id == workplace_id) else 1
+        return None
     if rule == 0:
         return sum(r.workamount_skill_mean_map.values())
     if rule == 1:
@@ -128,8 +142,13 @@ def check_sort(res, fn, inp, a, kw, out, exc, label, t):
         res.count("tie_in_keys")
     if len(set(kout)) > 1:
         res.count("sort_calls_nontrivial")
+    def gt(a, b):
+        if isinstance(a, tuple):
+            return a > b
+        return a > b + 1e-12
+
     for i in range(1, len(kout)):
-        if kout[i - 1] > kout[i] + 1e-12:
+        if gt(kout[i - 1], kout[i]):
             res.add("order", "C11.order.%s.%s" % (fn, rname),
                     "%s(rule=%s, %s): element %s (key %r) is placed before %s (key %r) (%s)"
                     % (fn, rname, dict(kw), getattr(out[i - 1], "ID", "?"), kout[i - 1], getattr(out[i], "ID", "?"), kout[i], label), t)
